@@ -239,8 +239,7 @@ def pinning_tracking_and_normalisation(ctx):
     from .c18_refs import REFS
     a = 'mystic.math.measures:normalize'
     f = ctx.func(a)
-    got = SB.summary(f.node, strict_casts=True)
-    want = SB.summary_of_source(REFS[a], strict_casts=True)
+    got, want = SB.agree(f.node, REFS[a], strict_casts=True)
     ctx.stats['terms_compared'] += len(got)
     ctx.check(got == want, 'normalize', 'weights / norm * mass, zero-sum handling',
               'normalize (behind the normalized() constraint) differs from its definition: %s' % SB.diff(got, want), f, f.node)
